@@ -8,7 +8,7 @@ CONSTANTS
   PCS = 2
   PFS = 2
   PMIN = 2
-  PPRICE = 1000 FUND = 10000 GAUGE0 = 0 H0 = 2 Prices = {2, 500, 2500} SZ1 = 3 SZ2 = 5 SZ3 = 1 MaxFiles = 3
+  PPRICE = 1000 FUND = 10000 GAUGE0 = 0 H0 = 2 Prices = {2, 500, 2500} SZ1 = 3 SZ2 = 5 SZ3 = 1 GAUGE2 = 0 Rels2 = {0} MaxFiles = 3
   D = 40
 INIT SimInit
 NEXT SimNext
